@@ -8,7 +8,18 @@ import (
 )
 
 func sessionCheck(prop, tier, module, mcCfg, dumpCfg string, extraNote string) {
+	sessionCheckWith(prop, tier, module, mcCfg, dumpCfg, extraNote, nil)
+}
+
+// sessionCheckWith additionally runs an extra family that reports into the
+// same run and returns (TLC states, cases run).
+func sessionCheckWith(prop, tier, module, mcCfg, dumpCfg string, extraNote string, extra func(run *evid.Run) (int64, int)) {
 	run := evid.NewRun(prop, tier)
+	var extraStates int64
+	extraCases := 0
+	if extra != nil {
+		extraStates, extraCases = extra(run)
+	}
 	mc := modelCheck(module, mcCfg, 16)
 	gs := dumpEdges(module, dumpCfg)
 	if module == "MC_Session" {
@@ -38,7 +49,8 @@ func sessionCheck(prop, tier, module, mcCfg, dumpCfg string, extraNote string) {
 	fmt.Printf("%s: TLC %d states / %d transitions; replayed %d/%d edges in %d steps over %d connections, %d configurations\n",
 		prop, mc.Distinct, mc.Generated, st.Covered, st.Edges, st.Steps, st.Convs, len(gs))
 	cov := evid.Coverage{
-		"states":                        mc.Distinct,
+		"states":                        mc.Distinct + extraStates,
+		"extra_family_cases":            extraCases,
 		"transitions":                   mc.Generated,
 		"traces_validated_against_impl": st.Convs + vs.Walks,
 		"replayed_conversations":        st.Convs,
